@@ -19,8 +19,14 @@ def run(ctx, model_ok):
     ctx.cov["samples"] = st.pop("samples")
     ctx.cov["correspondence"] = st
     ctx.failing += inv_fail
+    # the `*_all` views against Forest.flatAll, and the tree part of attributed histories (copy(**kwargs), + creating collections)
+    ast, afail = forest_family.run_attr_stream(ctx, ctx.scale(60, 1500) * budget, ctx.scale(14, 18), want_model=ctx.driver_ok)
+    ast.pop("samples")
+    ctx.cov["correspondence_forestattr"] = ast
+    ctx.failing += afail
     ctx.cov["oracle"] = {"invariant_evaluations_on_real_objects": st["ops"], "failures": len(inv_fail)}
-    ctx.cov["not_shown"] = ["copy() as a theorem (Props/C18 `inv_reachable_with_copy`; the forest stream here does contain copy() steps)", "the *_all views as pre-order flattenings (evaluated on the real objects by the invariant oracle)"]
+    ctx.cov["not_shown"] = ["termination of the unbounded recursion of check_format_input_obj itself (the model walks with fuel n; under the proved acyclicity the depth is below n; "
+                            "the forestattr stream compares all four *_all views of every collection after every operation)"]
     ctx.assumptions += ["lookup of the holder of an object goes through _parent in the model and through a depth-first search of the "
                         "children lists in the code; both agree under the proved invariant"]
 
